@@ -13,7 +13,8 @@ ALSO = {"S_C09": ["C02", "C14"], "S_C16": ["C03"], "S_C03": ["C16", "C13"], "S_C
 def sh(cmd, **kw):
     return subprocess.run(cmd, shell=True, capture_output=True, text=True, **kw)
 rows = []
-for d in sorted(glob.glob("seeded/S*_C*")):
+PATTERN = sys.argv[1] if len(sys.argv) > 1 else "S*_C*"       # e.g. tools/seedall.py 'S5_*' : only these seeds; RESULTS.md is merged
+for d in sorted(glob.glob("seeded/" + PATTERN)):
     sid = os.path.basename(d)
     meta = json.load(open(os.path.join(d, "meta.json")))
     prop = meta.get("property", sid.split("_")[1])
@@ -38,8 +39,17 @@ for d in sorted(glob.glob("seeded/S*_C*")):
     json.dump(meta, open(os.path.join(d, "meta.json"), "w"), indent=1)
     rows.append((sid, prop, ver))
     print(sid, json.dumps(ver)[:300], flush=True)
+old_rows = {}
+if os.path.exists("seeded/RESULTS.md"):
+    for l in open("seeded/RESULTS.md"):
+        c = [x.strip() for x in l.strip().strip("|").split("|")]
+        if len(c) == 5 and c[0].startswith("S"):
+            old_rows[c[0]] = l
 with open("seeded/RESULTS.md", "w") as f:
     f.write("| seed | property | tests pass with change | demo unchanged/with change | checks (exit code) |\n|---|---|---|---|---|\n")
+    done = {sid for sid, _, _ in rows}
+    for sid in sorted(set(old_rows) - done):
+        f.write(old_rows[sid])
     for sid, prop, v in rows:
         f.write("| {} | {} | {} | {}/{} | {} |\n".format(sid, prop, v.get("test_suite_with_change", "-"), v.get("demo_rc_unchanged"), v.get("demo_rc_with_change"),
                 "; ".join("{}: {}{}".format(c, x["rc"], " (no-failing-input-found)" if "no-failing" in x["line"] else "") for c, x in v.get("checks", {}).items())))
